@@ -393,3 +393,15 @@ mod tests {
         assert_parse_partial_data(" \"foo😊\":blah", &[string("foo😊")], 10, ":blah");
     }
 }
+
+#[cfg(feature = "verif-hooks")]
+impl DataIterator {
+    pub(crate) fn verif_cursor(&self) -> crate::verif::DataCursor {
+        crate::verif::DataCursor {
+            chunk_index: self.chunk_index,
+            chunk_item_index: self.chunk_item_index,
+            chunk_count: self.chunks.len(),
+            current_location: self.current_location().as_ref().map(crate::verif::loc),
+        }
+    }
+}
